@@ -307,14 +307,18 @@ func rulesRangeCode(p *Prog, r *Report) {
 		}
 		// T7: exactly the specified meaning
 		bad, n, ok = forAll([]*qf{af, want}, func(asg map[string]bool) bool {
-			// LATER(A,B) and LATER(B,A) and VEQ exclude each other
-			cnt := 0
+			// the two version positions are integers: exactly one of LATER(A,B), LATER(B,A), VEQ holds
+			// (when only some of the three propositions occur, at most one of those)
+			cnt, present := 0, 0
 			for _, k := range []string{"LATER(A,B)", "LATER(B,A)", "VEQ"} {
-				if asg[k] {
-					cnt++
+				if v, ok := asg[k]; ok {
+					present++
+					if v {
+						cnt++
+					}
 				}
 			}
-			if cnt > 1 {
+			if cnt > 1 || (present == 3 && cnt != 1) {
 				return true
 			}
 			v, _ := evalQ(af, asg)
